@@ -136,7 +136,7 @@ func Bubble(t *testing.T, seed uint64, body func()) {
 // NewPgWorld builds the deployment. Must be called inside the bubble.
 func NewPgWorld(w *kernel.World, rng *kernel.RNG, cfg PgWorldConfig) (*PgWorld, error) {
 	sqlparser.SetDefaultDialect(pgDialect.NewPostgreSQLDialect())
-	pw := &PgWorld{W: w, DB: NewPgDB(), chunkMod: cfg.ChunkMode, maxSteps: 4000, mysql: cfg.MySQL}
+	pw := &PgWorld{W: w, DB: NewPgDB(), chunkMod: cfg.ChunkMode, maxSteps: 40000, mysql: cfg.MySQL}
 	if cfg.MySQL {
 		sqlparser.SetDefaultDialect(myDialect.NewMySQLDialect())
 		pw.DB.MySQL, pw.DB.MyDeprecateEOF = true, cfg.MyDeprecateEOF
